@@ -7,8 +7,9 @@
   between explicit multiples of the exact value — for all sizes.  (All quantities are sums of
   non-negative products, so there is no cancellation and a purely relative bound holds.)
   This is what makes the correspondence harness's relative tolerance 10^-9 on non-dyadic inputs
-  a sound acceptance test rather than a tuning knob.  Eigen's kernels may add in another order;
-  the same bound holds for any order (not proved here, the loop order is the one modelled).
+  a sound acceptance test rather than a tuning knob.  Eigen's kernels add in another order and
+  association: `unnorm_any_order_enclosure` gives the same enclosure for ANY summation tree, with
+  the tree depth (at most S-1, far less for vectorised kernels) in place of S.
 -/
 import AITB.Props.C05
 set_option linter.unusedVariables false
@@ -175,6 +176,163 @@ theorem updateFl_enclosure {rnd : Rat → Rat} {u : Rat} (h : StdRounding rnd u)
       _ = (1 + u) ^ (m.S + 3) / (1 - u) ^ (2 * m.S + 2) * (w / P) := by
           have e : (1 + u) ^ (m.S + 3) = (1 + u) * (1 + u) ^ (m.S + 2) := by rw [pow_succ, mul_comm]
           rw [e, frac_rearrange]
+
+/-! ## any summation order
+
+  Eigen's dense and sparse kernels do not add the products in loop order (packets, unrolling, horizontal
+  adds).  Whatever order and association they use is a binary tree whose leaves are the products; the
+  enclosure depends only on the depth of that tree. -/
+
+/-- an association of non-negative terms: leaves are exact products, inner nodes are additions -/
+inductive SumTree where
+  | leaf (x : Rat)
+  | node (l r : SumTree)
+
+namespace SumTree
+def exact : SumTree → Rat
+  | leaf x => x
+  | node l r => l.exact + r.exact
+/-- every product and every addition rounded -/
+def fl (rnd : Rat → Rat) : SumTree → Rat
+  | leaf x => rnd x
+  | node l r => rnd (l.fl rnd + r.fl rnd)
+def depth : SumTree → Nat
+  | leaf _ => 0
+  | node l r => max l.depth r.depth + 1
+def Nonneg : SumTree → Prop
+  | leaf x => 0 ≤ x
+  | node l r => l.Nonneg ∧ r.Nonneg
+end SumTree
+
+theorem pow_mono_lo {u : Rat} (h0 : 0 ≤ u) (h1 : u ≤ 1) {i j : Nat} (hij : i ≤ j) : (1 - u) ^ j ≤ (1 - u) ^ i :=
+  pow_le_pow_of_le_one (by linarith) (by linarith) hij
+
+theorem pow_mono_hi {u : Rat} (h0 : 0 ≤ u) {i j : Nat} (hij : i ≤ j) : (1 + u) ^ i ≤ (1 + u) ^ j :=
+  pow_le_pow_right₀ (by linarith) hij
+
+theorem SumTree.fl_bounds {rnd : Rat → Rat} {u : Rat} (h : StdRounding rnd u) :
+    ∀ t : SumTree, t.Nonneg →
+      0 ≤ t.exact ∧ (1 - u) ^ (t.depth + 1) * t.exact ≤ t.fl rnd ∧ t.fl rnd ≤ (1 + u) ^ (t.depth + 1) * t.exact
+  | .leaf x, hx => by
+    simp only [SumTree.exact, SumTree.fl, SumTree.depth, Nat.zero_add, pow_one]
+    exact ⟨hx, h.lo x hx, h.hi x hx⟩
+  | .node l r, ⟨hl, hr⟩ => by
+    have hu0 := h.u_nonneg
+    have hu1 := h.u_le_one
+    obtain ⟨el0, llo, lhi⟩ := SumTree.fl_bounds h l hl
+    obtain ⟨er0, rlo, rhi⟩ := SumTree.fl_bounds h r hr
+    simp only [SumTree.exact, SumTree.fl, SumTree.depth]
+    set d := max l.depth r.depth
+    have hdl : l.depth + 1 ≤ d + 1 := by have := le_max_left l.depth r.depth; omega
+    have hdr : r.depth + 1 ≤ d + 1 := by have := le_max_right l.depth r.depth; omega
+    have fl0 : 0 ≤ l.fl rnd := le_trans (mul_nonneg (pow_nonneg (by linarith) _) el0) llo
+    have fr0 : 0 ≤ r.fl rnd := le_trans (mul_nonneg (pow_nonneg (by linarith) _) er0) rlo
+    have hx : 0 ≤ l.fl rnd + r.fl rnd := by linarith
+    have lo1 : (1 - u) ^ (d + 1) * (l.exact + r.exact) ≤ l.fl rnd + r.fl rnd := by
+      have a1 := mul_le_mul_of_nonneg_right (pow_mono_lo hu0 hu1 hdl) el0
+      have a2 := mul_le_mul_of_nonneg_right (pow_mono_lo hu0 hu1 hdr) er0
+      rw [mul_add]; linarith
+    have hi1 : l.fl rnd + r.fl rnd ≤ (1 + u) ^ (d + 1) * (l.exact + r.exact) := by
+      have a1 := mul_le_mul_of_nonneg_right (pow_mono_hi hu0 hdl) el0
+      have a2 := mul_le_mul_of_nonneg_right (pow_mono_hi hu0 hdr) er0
+      rw [mul_add]; linarith
+    refine ⟨by linarith, ?_, ?_⟩
+    · calc (1 - u) ^ (d + 1 + 1) * (l.exact + r.exact)
+          = (1 - u) * ((1 - u) ^ (d + 1) * (l.exact + r.exact)) := by rw [pow_succ (1 - u) (d + 1)]; ring
+        _ ≤ (1 - u) * (l.fl rnd + r.fl rnd) := mul_le_mul_of_nonneg_left lo1 (by linarith)
+        _ ≤ _ := h.lo _ hx
+    · calc rnd (l.fl rnd + r.fl rnd) ≤ (1 + u) * (l.fl rnd + r.fl rnd) := h.hi _ hx
+        _ ≤ (1 + u) * ((1 + u) ^ (d + 1) * (l.exact + r.exact)) := mul_le_mul_of_nonneg_left hi1 (by linarith)
+        _ = (1 + u) ^ (d + 1 + 1) * (l.exact + r.exact) := by rw [pow_succ (1 + u) (d + 1)]; ring
+
+/-- Eigen branch, any evaluation order: if the kernel adds the products `T(s,a,s1)·b(s)` in the association `t`
+    (so `t.exact` is their sum), the computed `O(s1,a,o) * (bᵀT_a)(s1)` is within `(1 ± u)^(depth t + 2)` of the
+    exact Bayes weight -/
+theorem unnorm_any_order_enclosure {rnd : Rat → Rat} {u : Rat} (h : StdRounding rnd u)
+    {m : POMDP} (hm : NonnegModel m) {b : Vec} {a o : Nat} (ha : a < m.A) (ho : o < m.O) {s1 : Nat} (hs1 : s1 < m.S)
+    (t : SumTree) (ht : t.Nonneg) (hsum : t.exact = sumTo m.S (fun s => m.T s a s1 * b s)) :
+    (1 - u) ^ (t.depth + 2) * weight m b a o s1 ≤ rnd (m.Ob s1 a o * t.fl rnd) ∧
+    rnd (m.Ob s1 a o * t.fl rnd) ≤ (1 + u) ^ (t.depth + 2) * weight m b a o s1 := by
+  have hu0 := h.u_nonneg
+  have hu1 := h.u_le_one
+  obtain ⟨e0, lo, hi⟩ := SumTree.fl_bounds h t ht
+  have hO := hm.O_nonneg s1 a o hs1 ha ho
+  have f0 : 0 ≤ t.fl rnd := le_trans (mul_nonneg (pow_nonneg (by linarith) _) e0) lo
+  have hx : 0 ≤ m.Ob s1 a o * t.fl rnd := mul_nonneg hO f0
+  unfold weight
+  rw [← hsum]
+  constructor
+  · calc (1 - u) ^ (t.depth + 2) * (m.Ob s1 a o * t.exact)
+        = (1 - u) * (m.Ob s1 a o * ((1 - u) ^ (t.depth + 1) * t.exact)) := by
+          rw [show t.depth + 2 = (t.depth + 1) + 1 by omega, pow_succ (1 - u) (t.depth + 1)]; ring
+      _ ≤ (1 - u) * (m.Ob s1 a o * t.fl rnd) :=
+          mul_le_mul_of_nonneg_left (mul_le_mul_of_nonneg_left lo hO) (by linarith)
+      _ ≤ _ := h.lo _ hx
+  · calc rnd (m.Ob s1 a o * t.fl rnd) ≤ (1 + u) * (m.Ob s1 a o * t.fl rnd) := h.hi _ hx
+      _ ≤ (1 + u) * (m.Ob s1 a o * ((1 + u) ^ (t.depth + 1) * t.exact)) :=
+          mul_le_mul_of_nonneg_left (mul_le_mul_of_nonneg_left hi hO) (by linarith)
+      _ = (1 + u) ^ (t.depth + 2) * (m.Ob s1 a o * t.exact) := by
+          rw [show t.depth + 2 = (t.depth + 1) + 1 by omega, pow_succ (1 + u) (t.depth + 1)]; ring
+
+/-! ## the tolerance used by the harness -/
+theorem pow_le_one_add_two_mul {u : Rat} (h0 : 0 ≤ u) : ∀ n : Nat, 2 * (n : Rat) * u ≤ 1 → (1 + u) ^ n ≤ 1 + 2 * (n : Rat) * u
+  | 0, _ => by simp
+  | n+1, h => by
+    have hn : 2 * (n : Rat) * u ≤ 1 := by
+      have : ((n + 1 : Nat) : Rat) = (n : Rat) + 1 := by push_cast; ring
+      rw [this] at h; nlinarith
+    have ih := pow_le_one_add_two_mul h0 n hn
+    have h1 : (1 + u) ^ (n + 1) ≤ (1 + 2 * (n : Rat) * u) * (1 + u) := by
+      rw [pow_succ]; exact mul_le_mul_of_nonneg_right ih (by linarith)
+    have : ((n + 1 : Nat) : Rat) = (n : Rat) + 1 := by push_cast; ring
+    rw [this]
+    nlinarith [mul_nonneg h0 (sub_nonneg.mpr hn)]
+
+theorem one_sub_mul_le_pow {u : Rat} (h0 : 0 ≤ u) (h1 : u ≤ 1) : ∀ n : Nat, 1 - (n : Rat) * u ≤ (1 - u) ^ n
+  | 0 => by simp
+  | n+1 => by
+    have ih := one_sub_mul_le_pow h0 h1 n
+    have h2 : (1 - (n : Rat) * u) * (1 - u) ≤ (1 - u) ^ (n + 1) := by
+      rw [pow_succ]; exact mul_le_mul_of_nonneg_right ih (by linarith)
+    have : ((n + 1 : Nat) : Rat) = (n : Rat) + 1 := by push_cast; ring
+    rw [this]
+    have hn0 : (0 : Rat) ≤ n := Nat.cast_nonneg n
+    nlinarith [mul_nonneg hn0 (mul_nonneg h0 h0)]
+
+/-- with IEEE doubles (`u = 2^-53`) and any model of up to a million states, both factors of
+    `updateFl_enclosure` are within `10^-9` of one: the harness's relative tolerance `10^-9` cannot reject a
+    correctly rounded implementation, and anything it accepts is within `2·10^-9` of the exact posterior -/
+theorem tolerance_sound (S : Nat) (hS : S ≤ 1000000) :
+    ((1 : Rat) + 1 / 2 ^ 53) ^ (S + 3) / (1 - 1 / 2 ^ 53) ^ (2 * S + 2) ≤ 1 + 1 / 10 ^ 9 ∧
+    1 - 1 / 10 ^ 9 ≤ ((1 : Rat) - 1 / 2 ^ 53) ^ (S + 3) / (1 + 1 / 2 ^ 53) ^ (2 * S + 2) := by
+  have hSq : (S : Rat) ≤ 1000000 := by exact_mod_cast hS
+  have hS0 : (0 : Rat) ≤ S := Nat.cast_nonneg S
+  have hu0 : (0 : Rat) ≤ 1 / 2 ^ 53 := by positivity
+  have hu1 : (1 : Rat) / 2 ^ 53 ≤ 1 := by norm_num
+  have c1 : ((S + 3 : Nat) : Rat) = (S : Rat) + 3 := by push_cast; ring
+  have c2 : ((2 * S + 2 : Nat) : Rat) = 2 * (S : Rat) + 2 := by push_cast; ring
+  have hiA := pow_le_one_add_two_mul hu0 (S + 3) (by rw [c1]; norm_num; nlinarith)
+  have hiB := pow_le_one_add_two_mul hu0 (2 * S + 2) (by rw [c2]; norm_num; nlinarith)
+  have loA := one_sub_mul_le_pow hu0 hu1 (S + 3)
+  have loB := one_sub_mul_le_pow hu0 hu1 (2 * S + 2)
+  rw [c1] at hiA loA
+  rw [c2] at hiB loB
+  have hBpos : (0 : Rat) < (1 - 1 / 2 ^ 53) ^ (2 * S + 2) := pow_pos (by norm_num) _
+  have hB'pos : (0 : Rat) < (1 + 1 / 2 ^ 53) ^ (2 * S + 2) := pow_pos (by norm_num) _
+  constructor
+  · rw [div_le_iff₀ hBpos]
+    have : (1 : Rat) + 2 * ((S : Rat) + 3) * (1 / 2 ^ 53) ≤ (1 + 1 / 10 ^ 9) * (1 - (2 * (S : Rat) + 2) * (1 / 2 ^ 53)) := by
+      norm_num; nlinarith
+    calc _ ≤ (1 : Rat) + 2 * ((S : Rat) + 3) * (1 / 2 ^ 53) := hiA
+      _ ≤ (1 + 1 / 10 ^ 9) * (1 - (2 * (S : Rat) + 2) * (1 / 2 ^ 53)) := this
+      _ ≤ _ := mul_le_mul_of_nonneg_left loB (by norm_num)
+  · rw [le_div_iff₀ hB'pos]
+    have : (1 - 1 / 10 ^ 9) * (1 + 2 * (2 * (S : Rat) + 2) * (1 / 2 ^ 53)) ≤ (1 : Rat) - ((S : Rat) + 3) * (1 / 2 ^ 53) := by
+      norm_num; nlinarith
+    calc (1 - 1 / 10 ^ 9) * (1 + 1 / 2 ^ 53) ^ (2 * S + 2)
+        ≤ (1 - 1 / 10 ^ 9) * (1 + 2 * (2 * (S : Rat) + 2) * (1 / 2 ^ 53)) := mul_le_mul_of_nonneg_left hiB (by norm_num)
+      _ ≤ (1 : Rat) - ((S : Rat) + 3) * (1 / 2 ^ 53) := this
+      _ ≤ _ := loA
 
 /-- (test on literals) for the largest model the harness generates (S = 24) and `u = 2^-53`
     the two factors of `updateFl_enclosure` are within `10^-9` of 1 -/
